@@ -1,5 +1,6 @@
 """Per-property configuration of tools/check.py."""
 import re
+import gen
 
 TRUSTED_BASE = [
     "Lean 4.33.0 kernel (theorems) and compiler (compiled driver rodbus_model)",
@@ -50,6 +51,99 @@ def classify_srv(case, impl):
 
 def nontrivial_srv(case, impl):
     return "tx=- calls=- " not in impl
+
+
+def _parse_cl_request(step):
+    """R/C/T/Q<h>.<rid>.<kind>.<unit>.<timeout>.<args…> -> dict"""
+    style = step[0]
+    parts = step[1:].split(".")
+    d = dict(style=style, rid=parts[1], kind=parts[2], unit=int(parts[3]))
+    k = d["kind"]
+    if k in ("rc", "rd", "rh", "ri"):
+        d["start"], d["count"] = int(parts[5]), int(parts[6])
+    elif k in ("wc", "wr"):
+        d["idx"], d["val"] = int(parts[5]), int(parts[6])
+    else:
+        d["start"] = int(parts[5])
+        spec = parts[6]
+        if spec.startswith("n"):
+            n, seed = spec[1:].split("s")
+            n, seed = int(n), int(seed)
+            d["vals"] = gen.pat_bits(n, seed) if k == "wC" else gen.pat_regs(n, seed)
+        elif spec == "-":
+            d["vals"] = []
+        elif k == "wC":
+            d["vals"] = [c == "1" for c in spec]
+        else:
+            d["vals"] = [int(x) for x in spec.split("/")]
+        d["count"] = len(d["vals"])
+    return d
+
+
+def _client_valid(d):
+    """the property's own validity conditions (C03)"""
+    k = d["kind"]
+    if k in ("wc", "wr"):
+        return True
+    lim = {"rc": 2000, "rd": 2000, "rh": 125, "ri": 125, "wC": 1968, "wR": 123}[k]
+    return 1 <= d["count"] <= lim and d["start"] + d["count"] <= 65536
+
+
+def _protocol_pdu(d):
+    fc = gen.FC_OF[d["kind"]]
+    k = d["kind"]
+    if k in ("rc", "rd", "rh", "ri"):
+        return bytes([fc]) + gen.be16(d["start"]) + gen.be16(d["count"])
+    if k == "wc":
+        return bytes([fc]) + gen.be16(d["idx"]) + (b"\xff\x00" if d["val"] else b"\x00\x00")
+    if k == "wr":
+        return bytes([fc]) + gen.be16(d["idx"]) + gen.be16(d["val"])
+    if k == "wC":
+        payload = gen.pack_bits(d["vals"])
+        return bytes([fc]) + gen.be16(d["start"]) + gen.be16(d["count"]) + bytes([len(payload)]) + payload
+    payload = b"".join(gen.be16(v) for v in d["vals"])
+    return bytes([fc]) + gen.be16(d["start"]) + gen.be16(d["count"]) + bytes([len(payload)]) + payload
+
+
+def cl_enc_oracle(case, impl):
+    """C03 stated directly: every transmitted frame is the protocol encoding of a valid request
+    (tx id = number of requests dequeued so far), invalid requests transmit nothing, and no frame
+    exceeds 260 (TCP) / 256 (RTU) bytes"""
+    tok = case.split(" ")
+    if tok[0] != "cl":
+        return None
+    rtu_mode = tok[1] == "r"
+    steps = tok[5].split(",")
+    groups = impl.split(" | ")
+    if len(groups) != len(steps) + 2:
+        return None     # not one group per step (harness-panic etc. is caught by the model diff)
+    tx = 0
+    for st, g in zip(steps, groups):
+        if st[0] not in "RCTQ":
+            if any(e.startswith("tx.") for e in g.split(";")):
+                return "a frame was transmitted in a step that submits nothing: " + st
+            continue
+        d = _parse_cl_request(st)
+        frames = [e[3:] for e in g.split(";") if e.startswith("tx.")]
+        for f in frames:
+            if len(f) // 2 > (256 if rtu_mode else 260):
+                return f"frame of {len(f) // 2} bytes emitted"
+        if not _client_valid(d):
+            if frames:
+                return f"invalid request {st} was transmitted"
+            if not any(e.startswith(f"sub.{d['rid']}.err.") or e.startswith(f"done.{d['rid']}.") for e in g.split(";")):
+                return f"invalid request {st} was neither refused nor completed with an error"
+            # a request rejected while it is serialised has consumed a transaction id
+            if any(e.startswith(f"done.{d['rid']}.badreq.type") for e in g.split(";")) and d["style"] != "T" or \
+               (any(e.startswith(f"done.{d['rid']}.badreq.type") for e in g.split(";"))):
+                tx = (tx + 1) % 65536
+            continue
+        pdu = _protocol_pdu(d)
+        expect = gen.rtu(d["unit"], pdu) if rtu_mode else gen.mbap(tx, d["unit"], pdu)
+        if frames != [expect.hex()]:
+            return f"request {st}: transmitted {frames} instead of [{expect.hex()}]"
+        tx = (tx + 1) % 65536
+    return None
 
 
 LIFE_NEXT = {
@@ -428,5 +522,62 @@ PROPS = {
              "1..4 peer behaviours, retry (10..50, 10..200) ms, timeout limit 0..3; distinct = distinct case line; non-trivial = at least 3 "
              "announced states",
         assumptions=["loopback connect/accept completes within the 450 ms idle threshold", "the listener callback blocks the task (MaybeAsync::asynchronous)"],
+    ),
+    "C03": dict(
+        audit_modules=["RodbusModel.Audit.C03"],
+        required_theorems=["Rodbus.C03.tryFrom_ok_iff", "Rodbus.C03.encode_ok_iff", "Rodbus.C03.encode_eq_spec",
+                           "Rodbus.C03.mbap_frame_eq_spec", "Rodbus.C03.rtu_frame_eq_spec", "Rodbus.C03.encode_len",
+                           "Rodbus.C03.mbap_frame_len", "Rodbus.C03.rtu_frame_len", "Rodbus.C03.server_parses_client",
+                           "Rodbus.C03.encode_error_kinds"],
+        suites=[dict(gen="range", n=(3000, 1000000), exhaustive="9x9 boundary lattice of (start,count) + start+count = 65536 +-2"),
+                dict(gen="cl_enc", n=(700, 60000),
+                     exhaustive="per kind: counts {0,1,limit-1,limit,limit+1,(limit+8,+9,2008,2009,2040,2041),65535,65536} x starts "
+                                "{0,1,65535-c,65536-c,65535} x {TCP,RTU}; struct-literal ranges for the reads")],
+        extra_oracle=lambda c, i: cl_enc_oracle(c, i) if c.startswith("cl ") else None,
+        level_text="Proof: tryFrom_ok_iff (all 2^32 constructor arguments, by arithmetic), encode_ok_iff (a request is encoded iff it is "
+                   "ClientValid: non-empty, no address overflow, within 2000/125 read and 1968/123 write limits), encode_eq_spec / "
+                   "mbap_frame_eq_spec / rtu_frame_eq_spec (the bytes are the declarative protocol ADU: tx id, protocol id 0, length, unit, function, "
+                   "big-endian fields, LSB-first packed coils, byte count; RTU: unit, PDU, CRC low byte first), encode_error_kinds, encode_len + "
+                   "mbap_frame_len <= 260 / rtu_frame_len <= 256, encode_wf, server_parses_client (round trip with the server parser); the "
+                   "task-level 'nothing is transmitted on error, the transaction id is still consumed' is in the client-task model (C10/C11). Tie: "
+                   "the production ClientLoop behind a real Channel / CallbackSession / FfiChannel over the in-memory transport, bytes captured; "
+                   "plus an independent Python oracle re-stating the encoding.",
+        level_note="Trusted: Lean kernel; hand-written model of types.rs / client/requests/* / common/serialize.rs / frame writers tied by "
+                   "differential runs (exhaustive boundary lattice, sampled elsewhere). Findings F3 (over-limit writes transmitted) and F8 (struct "
+                   "literal ranges) are fixed in the tree.",
+        technique="Lean 4 iff-characterisation of the request encoder + differential runs through the production client loop + independent oracle",
+        classify=lambda c, i: ["cl:" + ("tx" if "tx." in i else "refused") if c.startswith("cl ") else "range:" + i.split(" ")[0],
+                               "fr=" + c.split(" ")[1] if c.startswith("cl ") else "range"],
+        nontrivial=lambda c, i: ("tx." in i or "err" in i or "badreq" in i) if c.startswith("cl ") else True,
+        finding_key=no_key,
+        rule="range: boundary lattice + seeded random pairs; cl_enc: boundary lattice per kind and framing + seeded scripts of 1..4 requests "
+             "(2/3 valid) submitted future-, callback- or try-send-style; distinct = distinct case line; non-trivial = a frame was transmitted "
+             "or the request was refused",
+        assumptions=["requests are constructed through the public constructors (AddressRange::try_from, WriteMultiple::from) or as struct literals (Q style)"],
+    ),
+    "C04": dict(
+        audit_modules=["RodbusModel.Audit.C04"],
+        required_theorems=["Rodbus.C04.success_iff", "Rodbus.C04.exception_iff", "Rodbus.C04.otherwise_error", "Rodbus.C04.trichotomy",
+                           "Rodbus.C04.exception_code_roundtrip", "Rodbus.C04.returned_indices", "Rodbus.C04.end_to_end"],
+        suites=[dict(gen="cl_resp", n=(600, 60000),
+                     exhaustive="for one request of each of 6 kinds: function bytes 0..23, 0x80..0x97, 0xFF (all 256 thorough) x 11 bodies; all 256 "
+                                "exception codes; the genuine reply cut/extended to every length 0..len+3 on TCP and RTU")],
+        level_text="Proof: success_iff (a request succeeds iff the reply is WellFormedReply: the request's function code, exactly the implied length - "
+                   "any byte-count value -, for writes the exact echo; the values are then exactly those encoded, indexed upward from the start), "
+                   "exception_iff (exactly [fc|0x80, code] yields exactly that code), otherwise_error / trichotomy (every other reply fails with a "
+                   "non-exception error - never data), exception_code_roundtrip over the generated tables (all 256 codes), returned_indices (no u16 "
+                   "overflow in start+i), end_to_end / end_to_end_wire (client o server composition returns exactly the handler's values or its "
+                   "first exception). Tie: scripted replies through the production client loop.",
+        level_note="Trusted: Lean kernel, hand-written model of client/message.rs and client/requests/*, tied by differential runs (exhaustive on the "
+                   "listed families). Reading: the redundant byte-count field of read replies is not demanded (the statement requires the length).",
+        technique="Lean 4 iff-characterisation of the response decoder + client/server composition theorem + differential scripted replies",
+        classify=lambda c, i: [("ok" if ".ok." in i else "exc" if ".exc." in i else "badresp" if "badresp" in i else "timeout" if "timeout" in i else "other"),
+                               "fr=" + c.split(" ")[1]],
+        nontrivial=lambda c, i: "done." in i,
+        finding_key=no_key,
+        rule="cl_resp: exhaustive perturbation families per kind + seeded scripts of 1..3 requests each answered by the genuine reply (1/3), an "
+             "exception, or a grammar-aware perturbation (function byte, truncation, extension, byte count, coil encoding, bit flip, echo "
+             "mismatch, empty, random), whole or split in two deliveries; distinct = distinct case line; non-trivial = the request completed",
+        assumptions=["RTU replies are generated so that the response parser delimits them (otherwise they are framing errors, C06)"],
     ),
 }
